@@ -17,6 +17,7 @@ A change of a guard in policy.go / notary.go / oracle.go / native_neo.go changes
 corresponding theorem stops checking (before any test is run).
 -/
 import NeoModel.Model.Ledger.Guarded
+import NeoModel.Model.Ledger.Recover
 import NeoModel.Generated.GoFuncs
 namespace NeoModel.Ledger.Guarded
 open NeoModel.Generated NeoModel.Ledger.Natives NeoModel.Ledger.Components
@@ -157,6 +158,20 @@ theorem getRole_eq_generated (r : Int) :
       have h3 : 0 ≤ r := by omega
       have h4 : r ≤ 255 := by omega
       simp [h0, h1, h2, h3, h4, hm]
+
+/-- the signature count of NEO.CheckAlmostFullCommittee in the model (Model/Ledger/Recover.lean) = the argument the
+    translated function passes to CreateMultiSigRedeemScript, for every committee size -/
+theorem almostFullM_eq_generated (x : Int) (n : Nat) :
+    GoFuncs.neoCheckAlmostFullCommittee x n = some [(Recover.almostFullM n : Int)] := by
+  unfold GoFuncs.neoCheckAlmostFullCommittee Recover.almostFullM
+  cases n with
+  | zero => decide
+  | succ k =>
+    have h : Int.tdiv (((k + 1 : Nat) : Int) - 1) 2 = (((k + 1 : Nat) : Int) - 1) / 2 := by
+      apply Int.tdiv_eq_ediv_of_nonneg; omega
+    simp only [h]
+    congr 2
+    omega
 
 -- the natives model's own setters ------------------------------------------------------------------------------------
 
